@@ -184,6 +184,8 @@ func (q *sreq) render(rng *rand.Rand) []byte {
 	switch q.WsVersion {
 	case "other":
 		lines = append(lines, "Sec-WebSocket-Version: 14")
+	case "lead0": // not literally 13
+		lines = append(lines, "Sec-WebSocket-Version: "+[]string{"013", "0013", "13.0", "+13", "1 3"}[rng.Intn(5)])
 	default:
 		add("Sec-WebSocket-Version", q.WsVersion, "13", func() string { return "13" }, "8")
 	}
